@@ -1617,7 +1617,7 @@ core.SymSeries, core.SymFrame, core.SymLabelSeries, core.SymIndex = SymSeries, S
 
 # ---------------------------------------------------------------------------------------------- index alignment
 
-def align_rows(a, b):
+def align_rows(a, b, how="outer"):
     """pandas' outer alignment of two series / frames on their index labels (unique labels on each side; a path with
     duplicate labels raises ModelledMisalignment).  Returns both operands over the same slots, NaN where missing."""
     ia, ib = a.index_, b.index_
@@ -1635,8 +1635,9 @@ def align_rows(a, b):
         raise ModelledMisalignment("alignment of operands with duplicate index labels")
     match = [[And(a.valid[i], b.valid[j], I(ia.vals[i]) == I(ib.vals[j])) for j in range(nb)] for i in range(na)]
     rows = [(match[i][j], i, j) for i in range(na) for j in range(nb)]
-    rows += [(And(a.valid[i], Not(Or(*match[i]))), i, None) for i in range(na)]
-    rows += [(And(b.valid[j], Not(Or(*[match[i][j] for i in range(na)]))), None, j) for j in range(nb)]
+    if how == "outer":
+        rows += [(And(a.valid[i], Not(Or(*match[i]))), i, None) for i in range(na)]
+        rows += [(And(b.valid[j], Not(Or(*[match[i][j] for i in range(na)]))), None, j) for j in range(nb)]
     valid = [v for v, _, _ in rows]
     labels = [I(ia.vals[i]) if i is not None else I(ib.vals[j]) for _, i, j in rows]
     index = Idx(labels, ia.name if ia.name == ib.name else None, True)
@@ -1708,8 +1709,22 @@ def _concat_columns(objs, join):
     first = objs[0]
     if not all(isinstance(o, (SymFrame, SymSeries)) for o in objs):
         raise Unsupported("concat axis=1 of non frames")
+    def as_frame(k, o):
+        return SymFrame([(o.name if o.name is not None else k, o.col)], o.valid, o.index_, o.prov, o.order) if isinstance(o, SymSeries) else o
+
     if not all(o.prov == first.prov and same_valid(o.valid, first.valid) for o in objs):
-        raise Unsupported("concat axis=1 of differently indexed inputs")
+        # differently indexed inputs: pandas joins them on the index labels (outer: sorted union, inner: common labels); folded pairwise
+        if join not in ("outer", "inner"):
+            raise Unsupported(f"concat axis=1 join={join!r}")
+        acc = as_frame(0, objs[0])
+        for k, o in enumerate(objs[1:], 1):
+            o = as_frame(k, o)
+            if o.prov == acc.prov and same_valid(o.valid, acc.valid):
+                acc = SymFrame(list(acc.cols) + list(o.cols), acc.valid, acc.index_, acc.prov, acc.order)
+                continue
+            a2, b2 = align_rows(acc, o, how=join)
+            acc = SymFrame(list(a2.cols) + list(b2.cols), a2.valid, a2.index_, a2.prov, a2.order)
+        return acc
     cols = []
     for k, o in enumerate(objs):
         if isinstance(o, SymSeries):
